@@ -7,6 +7,8 @@ import Driver.ConfigIO
 import Driver.BerIO
 import Driver.CdrDumpIO
 import Driver.PeerIO
+import Driver.RecBerIO
+import Driver.AuthIO
 /-
   Line-protocol driver: one operation per input line, one canonical line per operation.
   The first token selects the stream (model); stateful streams keep their state in `DState`.
@@ -19,18 +21,26 @@ structure DState where
   rf : List Rating.Tariff := []
   chf : ChfSt := ({}, [])
 
+/-- what OpenCDR takes from outside the charging model, as far as sizes go: a 36-octet NF instance id, a 9-octet
+    opening time, consumer functionality SMF.  (The harness reports the real values; the `recber` check compares.) -/
+def chfEnv : RecordBer.RecEnv := { nfId := List.replicate 36 48, openTime := List.replicate 9 0, functionality := 1 }
+
 def step (s : DState) (line : String) : DState × String :=
   match (line.trimAscii.toString.splitOn " ").filter (· ≠ "") with
   | "cdrfile" :: t => (s, cdrfileOp t)
   | "abmf" :: t => let (a, o) := abmfOp s.abmf t; ({ s with abmf := a }, o)
   | "rf" :: t => let (a, o) := rfOp s.rf t; ({ s with rf := a }, o)
-  | "chf" :: t => let (a, o) := chfOp noSplit s.chf t; ({ s with chf := a }, o)
+  | "chf" :: t => let (a, o) := chfOp (RecordBer.berGuard chfEnv) s.chf t; ({ s with chf := a }, o)
   | "conv" :: t => (s, convOp t)
   | "ber" :: t => (s, berOp t)
   | "peer" :: t => (s, peerOp t)
+  | "auth" :: t => (s, authOp t)
   | "c03" :: t => (s, c03Op ("c03" :: t))
   | "config" :: t => (s, configOp t)
   | "diam" :: t => (s, diamOp t)
+  | "recbytes" :: t => (s, recberOp t)
+  | "recguard" :: t => (s, recguardOp t)
+  | "recopen" :: t => (s, recopenOp t)
   | "abmfjudge" :: t => (s, abmfJudge t)
   | "rfjudge" :: t => (s, rfJudge t)
   | _ => (s, "bad-op")
